@@ -153,14 +153,30 @@ Fixpoint typecheck (cmds : list command) (st : state) (rd keyed : bool) (s : lis
 
 
 (* Fuel: the run is repeated with 8 times the fuel while it answers OutOfFuel, at most [k] times (exec_fuel_mono: a run
-   that ended keeps its result).  Still out of fuel at the cap: (3 cap).  OutOfFuel although the program has a READ for
-   which the harness supplied no data (the implementation's own READ failed while being measured): (5). *)
-Definition count_reads (cmds : list command) : nat :=
-  length (filter (fun c => match c with Cmd name _ => str_eqb (lower name) nm_read end) cmds).
+   that ended keeps its result).  Still OutOfFuel at the cap: (3 cap) -- the program does not end, or it prints an
+   interpreter object (outside the modelled domain).  (5): the commands before the first READ for which the harness
+   supplied no data run through, so the OutOfFuel comes from that READ (the implementation's own READ failed while its
+   result was being measured). *)
+Fixpoint before_nth_read (n : nat) (cmds : list command) : option (list command) :=
+  match cmds with
+  | [] => None
+  | (Cmd name args as c) :: rest =>
+    if str_eqb (lower name) nm_read then
+      match n with
+      | O => Some []
+      | S n' => option_map (cons c) (before_nth_read n' rest)
+      end
+    else option_map (cons c) (before_nth_read n rest)
+  end.
+Definition read_without_data (fmt : str -> str -> res str) (cw : char -> Z) (fuel : nat) (cmds : list command) (st : state) : bool :=
+  match before_nth_read (length (st_reads st)) cmds with
+  | Some prefix => match run fmt cw fuel st prefix with Ok _ => true | _ => false end
+  | None => false
+  end.
 Fixpoint run_escalating (fmt : str -> str -> res str) (cw : char -> Z) (k fuel : nat) (cmds : list command) (st : state) : sexp :=
   match run fmt cw fuel st cmds with
   | OutOfFuel =>
-    if Nat.ltb (length (st_reads st)) (count_reads cmds) then L [A 5%Z]
+    if read_without_data fmt cw fuel cmds st then L [A 5%Z]
     else match k with
          | O => L [A 3%Z; e_nat fuel]
          | S k' => run_escalating fmt cw k' (8 * fuel) cmds st
